@@ -178,6 +178,8 @@ def gen_param_case(rng, tier):
         kw = {n: rng.randint(-8, 8) / 8.0 + (1.5 if n == "wl" else 0.0) for n in visible if rng.random() < 0.5}
         d["assign"].append(kw)
     d["assign"].append({})
+    if rng.random() < 0.5:
+        d["assign"].reverse()             # the argument-less solve comes first
     d["late_default"] = rng.random() < 0.3      # a default of the original changed after split(): parts must not follow
     return d
 
@@ -233,8 +235,7 @@ def run_param(d):
                 sol.default_params[n] = 0.375
     by_pin = {}
     for p in parts:
-        r0 = p.solve(**dict(d["assign"][0]))
-        for pin in r0.pin_dic:
+        for pin in p.pin_mapping:          # no solve here: the FIRST solve of a part may be the argument-less one
             by_pin[pin.name] = p
     observed = []
     for kw in d["assign"]:
